@@ -3472,6 +3472,31 @@ fn stream_store_loops(rep: &mut Report, m: &mut Model, root: &Rng, thorough: boo
                 }
             }
         }
+        // --- the file form through the TensorStore API, plain load and load with a rebuilt Bloom filter
+        // (a key the rebuilt filter does not hold would read as NotFound)
+        {
+            let p = sc.fresh("loops.v3");
+            match store.save_snapshot(&p) {
+                Err(e) => seen.violation(rep, "tensor_store.save_snapshot/save_or_load_failed", &e.to_string(), input("save_snapshot")),
+                Ok(()) => {
+                    for bloom in [false, true] {
+                        let l = if bloom { TensorStore::load_snapshot_with_bloom_filter(&p, 64, 0.01) } else { TensorStore::load_snapshot(&p) };
+                        match l {
+                            Err(e) => seen.violation(rep, "tensor_store.save_snapshot/save_or_load_failed", &e.to_string(), input("load_snapshot")),
+                            Ok(l) => {
+                                rep.hit(if bloom { "store_loops.load_with_bloom_filter" } else { "store_loops.load_snapshot" });
+                                let mut keys = l.scan("");
+                                keys.sort();
+                                let got = canon_entries(&join_or("&", &keys.iter().map(|k| format!("{}~{}", hexs(k), l.get(k).map_or("notfound".to_string(), |d| enc_data_m(&d)))).collect::<Vec<_>>()), true);
+                                if got != kv {
+                                    seen.violation(rep, if bloom { "tensor_store.load_snapshot_with_bloom_filter/key_content_not_restored" } else { "tensor_store.save_snapshot/key_content_not_restored" }, "scan + get through the TensorStore API differ after save_snapshot + load", json!({"case": input("load_snapshot"), "bloom": bloom, "saved": kv.chars().take(1200).collect::<String>(), "loaded": got.chars().take(1200).collect::<String>()}));
+                                }
+                            }
+                        }
+                    }
+                }
+            }
+        }
         // --- the quantising format (no tensor-train configured): every key-addressed entry
         for delta in [true, false] {
             let p = sc.fresh("loops.q");
@@ -3513,6 +3538,17 @@ fn stream_store_loops(rep: &mut Report, m: &mut Model, root: &Rng, thorough: boo
                     let want = canon_entries(&join_or("&", &es.iter().map(|(k, d)| format!("{k}~{d}")).collect::<Vec<_>>()), true);
                     if got != want {
                         seen.violation(rep, "tensor_store.snapshot.load_v2/key_content_not_restored", "scan + get of a store loaded from a v2 file differ from the file's map", json!({"map": want.chars().take(1200).collect::<String>(), "loaded": got.chars().take(1200).collect::<String>()}));
+                    }
+                    // migrate_v2_to_v3 = the v2 loader followed by the v3 save
+                    let p3 = sc.fresh("migrated.v3");
+                    match snapshot::migrate_v2_to_v3(&p, &p3).map_err(|e| fmt_err(&e)).and_then(|()| snapshot::load(&p3).map_err(|e| fmt_err(&e))) {
+                        Err(e) => seen.violation(rep, "tensor_store.snapshot.migrate_v2_to_v3/failed", &e, json!({"entries": map.len()})),
+                        Ok(l3) => {
+                            rep.hit("store_loops.migrate_v2_to_v3");
+                            if real_kv(&l3) != want {
+                                seen.violation(rep, "tensor_store.snapshot.migrate_v2_to_v3/key_content_not_restored", "scan + get of the migrated file differ from the v2 map", json!({"map": want.chars().take(1200).collect::<String>()}));
+                            }
+                        }
                     }
                     if live {
                         let line = format!("rt_loadv2 {}", join_or("&", &es.iter().map(|(k, d)| format!("{k}~{d}")).collect::<Vec<_>>()));
